@@ -33,9 +33,15 @@ def _work(job):
     out['results'] = [by[r['pred']] if (r['status'] == 'not_encodable' and 'slot budget' in r.get('why', ''))
                       else r for r in out['results']]
   out['seed'] = s
-  if selftest:
+  heavy = str(getattr(case, 'notes', '')).startswith('argbest')
+  if selftest or heavy:
     try:
-      probs, n = tv.selftest_case(case, random.Random(s), ntrials=2, K=min(kk, 2))
+      if heavy:
+        # the K-best aggregates are Python UDFs with heap logic the SQL model abstracts from: more and
+        # larger concrete databases (more rows than K, few ties) for the model-vs-SQLite-vs-reference test
+        probs, n = tv.selftest_case(case, random.Random(s), ntrials=24, K=5, hi=30, key_hi=1)
+      else:
+        probs, n = tv.selftest_case(case, random.Random(s), ntrials=2, K=min(kk, 2))
     except Exception:  # noqa: BLE001
       probs, n = [('selftest crashed', traceback.format_exc()[-800:])], 0
     out['selftest'] = {'problems': probs, 'n': n}
